@@ -263,7 +263,14 @@ def _facts(n):
 
 
 def h_fresh(params, v0, v1, v2, v3, t, i, vk, w, w2, mode):
-  t, i, vk, mode = concretize(t, range(0, 16)), concretize(i, range(-1, 6)), concretize(vk, (0, 1, 2, 3)), concretize(mode, (0, 1))
+  # lazily: the target first; index, value kind and mode only for (operation, node) pairs the operation applies to
+  with untraced():
+    nodes0 = nodes_of(t_fresh((1, 2, 3, 4)))
+  t = concretize(t, range(len(nodes0)))
+  if not T.applicable(params['op'], nodes0[t], t):
+    raise Assume()
+  n = T.fanout(nodes0[t])
+  i, vk, mode = concretize(i, range(-1, n + 2)), concretize(vk, (0, 1, 2, 3)), concretize(mode, (0, 1))
   with untraced():
     return _fresh_body(params, 1, 2, 3, 4, t, i, vk, 50, 60, mode)
 
@@ -309,6 +316,18 @@ def _fresh_body(params, v0, v1, v2, v3, t, i, vk, w, w2, mode):
   return None
 
 
+def h_events_m(params, v0, v1, v2, v3, t, i, vk, w, w2, mode):
+  if params.get('mode') is not None and mode != params['mode']:
+    raise Assume()       # shard-level cut: the notification mode
+  return h_events(params, v0, v1, v2, v3, t, i, vk, w, w2, mode)
+
+
+def h_fresh_m(params, v0, v1, v2, v3, t, i, vk, w, w2, mode):
+  if params.get('mode') is not None and mode != params['mode']:
+    raise Assume()
+  return h_fresh(params, v0, v1, v2, v3, t, i, vk, w, w2, mode)
+
+
 _ARGS = [('v0', 'int'), ('v1', 'int'), ('v2', 'int'), ('v3', 'int'), ('t', 'int'), ('i', 'int'), ('vk', 'int'), ('w', 'int'),
          ('w2', 'int'), ('mode', 'int')]
 EVENT_OPS = ['setitem', 'setattr', 'delitem', 'append', 'extend', 'insert', 'pop', 'set_slice', 'update', 'setdefault',
@@ -324,9 +343,16 @@ def shards(tier, seed):
   out = []
   b = 60 if quick else 400
   ops = EVENT_OPS
+  heavy = {'setattr', 'delitem', 'setitem', 'pop', 'rebind_key', 'rebind_kwargs', 'rebind_deep', 'rebind_deep2', 'rebind_missing',
+           'rebind_fn', 'clear', 'update'}
   for op in ops:
-    out.append(dict(name=f'events:{op}', fn='h_events', params=dict(op=op), args=_ARGS, budget_s=b, per_path_s=15))
-    out.append(dict(name=f'fresh:{op}', fn='h_fresh', params=dict(op=op), args=_ARGS, budget_s=b, per_path_s=15))
+    for fam, fn in (('events', 'h_events_m'), ('fresh', 'h_fresh_m')):
+      if op in heavy:      # one shard per notification mode (half the path tree each)
+        for mode in (0, 1):
+          out.append(dict(name=f'{fam}:{op}:mode{mode}', fn=fn, params=dict(op=op, mode=mode), args=_ARGS, budget_s=b * 2,
+                          expect_s=50, per_path_s=15))
+      else:
+        out.append(dict(name=f'{fam}:{op}', fn=fn, params=dict(op=op), args=_ARGS, budget_s=b * 2, expect_s=30, per_path_s=15))
   return out
 
 
